@@ -86,6 +86,7 @@ type lexer struct {
 		name  string      // name
 		attr  string      // current attribute name
 		index int         // index of first byte of the current attribute value in src, -1 if the value contains template code
+		typ   bool        // reports whether a type attribute of the tag has already been lexed
 		ctx   ast.Context // context of the tag's content
 	}
 	rawMarker      []byte     // raw marker, not nil when a raw statement has been lexed
@@ -409,6 +410,7 @@ func (l *lexer) scan() {
 					l.tag.name, p = l.scanTag(p)
 					if l.tag.name != "" {
 						l.ctx = ast.ContextTag
+						l.tag.typ = false
 						switch l.tag.name {
 						case "script":
 							l.tag.ctx = ast.ContextJS
@@ -480,7 +482,12 @@ func (l *lexer) scan() {
 						p = 0
 						lin = l.line
 						col = l.column
-					} else if l.tag.attr == "type" && l.tag.index >= 0 {
+					} else if l.tag.attr == "type" && l.tag.typ {
+						// Browsers ignore an attribute that duplicates a previous one.
+					} else if l.tag.attr == "type" && l.tag.index < 0 {
+						l.tag.typ = true
+					} else if l.tag.attr == "type" {
+						l.tag.typ = true
 						switch l.tag.name {
 						case "script":
 							typ := bytes.Trim(l.src[l.tag.index:p], " \t\n\f\r")
